@@ -101,7 +101,7 @@ pub fn execute(plan: &Plan, entropy: u64) -> RunReport {
         ledger::ledger_install();
         let mut rep = RunReport::default();
         let rewards = RewardsAddress::from([0x11u8; 20]);
-        let host = match NodeHost::build(0, root, data::ed_key(plan.seed, 0), None, None, rewards) {
+        let host = match NodeHost::build(0, root, data::ed_key(plan.seed, 0), None, if plan.cache == 0 { None } else { Some(plan.cache) }, rewards) {
             Ok(h) => h,
             Err(e) => {
                 rep.harness_error = Some(e);
@@ -351,7 +351,8 @@ impl<'a> World<'a> {
                     0 => PadForm::Valid,
                     1 => PadForm::Unsigned,
                     2 => PadForm::ForeignSigner,
-                    _ => PadForm::InflatedCounter,
+                    3 => PadForm::InflatedCounter,
+                    _ => PadForm::SubstitutedContent,
                 };
                 let tag = format!("pad-data-{uid}").into_bytes();
                 let pad = data::scratchpad(&owner, &self.stranger, d.counter, &tag, form);
@@ -433,6 +434,12 @@ impl<'a> World<'a> {
                                     all_permitted = false;
                                 }
                                 self.writer.clone()
+                            }
+                            3 | 4 => {
+                                // an op that names a permitted source but carries the stranger's signature
+                                all_permitted = false;
+                                let named = if *signer == 3 { self.reg_owners[d.who as usize % 2].clone() } else { self.writer.clone() };
+                                return data::forged_register_op(&base, *id, &named, &self.stranger);
                             }
                             _ => {
                                 all_permitted = false;
